@@ -3,5 +3,7 @@
 From DS Require Import Base.
 Record det_case := { dc_evals : nat; dc_rounds : nat; dc_distinct_outcomes : nat; dc_distinct_reports : nat }.
 Definition det_ok (c : det_case) : bool := (dc_distinct_outcomes c <=? 1)%nat && (dc_distinct_reports c <=? 1)%nat.
-Definition det_eval (cs : list det_case) : list nat * list nat * list nat :=
-  ([], index_where (fun c => negb (det_ok c)) cs, [sum_nat (map dc_evals cs); sum_nat (map dc_rounds cs)]).
+(* the totals are computed in Z: a unary nat of several hundred thousand overflows the stack when the result is read back *)
+Definition det_eval (cs : list det_case) : list nat * list nat * list Z :=
+  ([], index_where (fun c => negb (det_ok c)) cs,
+   [fold_left Z.add (map (fun c => Z.of_nat (dc_evals c)) cs) 0%Z; fold_left Z.add (map (fun c => Z.of_nat (dc_rounds c)) cs) 0%Z]).
